@@ -40,6 +40,13 @@ func replayFile(repo, verif, path string) int {
 		fmt.Printf("VIOLATION property=%s replay=%s\n", rf.Property, path)
 		return 1
 	}
+	if rf.Property == "C17" {
+		if race, _ := RunNativeRace(w, opt, []NativeJob{{ID: "race", Harness: "gonnx.H_C17_race", Case: rf.Case, Asg: rf.Asg}}); race {
+			fmt.Println("go test -race reports a DATA RACE when 8 goroutines run this model concurrently")
+			fmt.Printf("VIOLATION property=%s replay=%s\n", rf.Property, path)
+			return 1
+		}
+	}
 	fmt.Println("not reproduced")
 	return 0
 }
